@@ -2,6 +2,7 @@
 # usage: seedtest.sh <patch.diff> <prop> [more props]  -- applies the patch to /repo, runs the quick checks, reverts
 patch="$1"; shift
 cd /verif
+export VERIF_NO_EVIDENCE=1
 git -C /repo diff --quiet || { echo "repo dirty"; exit 2; }
 git -C /repo apply "$patch" || { echo "patch does not apply"; exit 2; }
 for p in "$@"; do
